@@ -6,7 +6,7 @@ META = {
     "level": "proof",
     "technique": "Coq: the same inductive invariant as C01 gives, at every configuration with no Add in flight, Count = sum of deltas, all handed-out channels closed at zero, a fresh Wait open above zero, Wait returning at its next scheduling under every fair schedule; trace monitor c02_ok = the declarative c02_spec on well-formed traces (per-goroutine step count inside Wait); WaitTimeout/WaitCTX as a logical-time select automaton with the deadline theorem; tied to the source by the simulation check-list proved for the regenerated IR on every run, the regenerated Inc/Dec wrappers and select summaries, and by schedule replay (enumerated, random, adversarially directed) on the instrumented real code judged in-kernel by c02_ok, with real WaitTimeout / WaitCTX(cancelled context) calls at rest points in the middle and at the end of schedules",
     "design_ref": "DESIGN.md §4 C02",
-    "level_text": "Proof: for every number of goroutines, every program and every schedule, in every reachable configuration with no Add/Inc/Dec in flight Count() equals the sum of the deltas, every channel ever returned by Wait is closed when that sum is zero, a fresh Wait returns an open channel when it is positive (C02_rest); a thread inside Wait returns at its very next scheduling, under ANY continuation of the schedule that schedules it at all, whatever other calls are pending or not yet started (C02_wait_fair, C02_wait_bounded); the executable monitor c02_ok holds of every machine trace (C02_monitor) and on well-formed traces is EXACTLY the declarative sentence c02_spec (C02_monitor_exact; steps inside Wait are counted per goroutine, reset only by an Add in flight - the pinned spinning Wait is rejected also when interleaved with stutters or other waiters, C02_orig_refuted_interleaved); WaitTimeout/WaitCTX (WGTimed.v: load of wg.Wait(), then a select with the deadline k of the caller's own attempts away, every attempt seeing an ARBITRARY memory) always answer within k + 2 schedulings, nil only when the loaded channel is closed, the deadline's error only at the deadline (C02_deadline_*). Props/C02.v; closed under the global context. Tied to the source as C01 (simulation check-list proved for the regenerated IR; schedule replay judged by c02_ok in Coq and compared with the machine's trace); Inc/Dec and the two select functions are re-stated by the translator and compared with stored terms; the harness makes +1/-1 calls through the real Inc/Dec and calls the real WaitTimeout(5ms) and WaitCTX(cancelled context) at points with no Add in flight in the middle and at the end of schedules: with sum > 0 they must return their deadline's error, with sum = 0 WaitTimeout must return nil, neither may hang.",
+    "level_text": "Proof: for every number of goroutines, every program and every schedule, in every reachable configuration with no Add/Inc/Dec in flight Count() equals the sum of the deltas, every channel ever returned by Wait is closed when that sum is zero, a fresh Wait returns an open channel when it is positive (C02_rest); a thread inside Wait returns at its very next scheduling, under ANY continuation of the schedule that schedules it at all, whatever other calls are pending or not yet started (C02_wait_fair, C02_wait_bounded); the executable monitor c02_ok holds of every machine trace (C02_monitor) and on well-formed traces is EXACTLY the declarative sentence c02_spec (C02_monitor_exact; steps inside Wait are counted per goroutine, reset only by an Add in flight - the pinned spinning Wait is rejected also when interleaved with stutters or other waiters, C02_orig_refuted_interleaved); WaitTimeout/WaitCTX (WGTimed.v: load of wg.Wait(), then a select with the deadline k of the caller's own attempts away, every attempt seeing an ARBITRARY memory) always answer within k + 2 schedulings, nil only when the loaded channel is closed, the deadline's error only at the deadline (C02_deadline_*). Props/C02.v; closed under the global context. Tied to the source as C01 (simulation check-list proved for the regenerated IR; schedule replay judged by c02_ok in Coq and compared with the machine's trace); Inc/Dec and the two select functions are re-stated by the translator and compared with stored terms; the harness makes +1/-1 calls through the real Inc/Dec and calls the real WaitTimeout(5ms) and WaitCTX(cancelled context) at points with no Add in flight in the middle and at the end of schedules: with sum > 0 they must return their deadline's error, with sum = 0 WaitTimeout must return nil, neither may hang; and a deadline probe runs WaitTimeout(d) / WaitCTX(WithTimeout(d)) with real timers on an idle group, on a group that stays positive and under release + re-arm cycles with the woken waiter held at its next yield point until the re-arming Inc is done: every answer within 2 d of the call (judged by WGJudge.dl_ok; C02_deadline_restart_unbounded is the model of an implementation that restarts its timer).",
     "level_note": "Trusted: as C01. Partial: runtime timers, contexts and the fairness of Go's select (WaitTimeout/WaitCTX are modelled with logical time; the real functions are exercised by the probes). Domain restriction: counts are mathematical integers (no int overflow). No axioms.",
 }
 
